@@ -20,11 +20,11 @@ def configs(tier):
     out = [
         e1common.StoreCfg(kinds=("tree", "bare", "mem", "vdir"), names=names, bodies=bods, oracles={"C06"}, features={"restart"}),
         Config(front="wsgi", backend="tree", prefix="/", names={"cal": list(names[:2]), "ab": [], "c2": []}, bodies={"cal": list(bods[:5]), "ab": [], "c2": []},
-               features={"restart", "post"}, oracles={"C06"}),
+               features={"restart", "post", "burst"}, oracles={"C06"}),
     ]
     if tier == "thorough":
         out.append(Config(front="aio", backend="bare", prefix="/dav/", names={"cal": list(names[:2]), "ab": [], "c2": []}, bodies={"cal": list(bods[:6]), "ab": [], "c2": []},
-                          features={"restart", "post"}, oracles={"C06"}))
+                          features={"restart", "post", "burst"}, oracles={"C06"}))
     return out
 
 
